@@ -29,6 +29,7 @@ type refineRow struct {
 	Fam  string          `json:"fam"`
 	Prog json.RawMessage `json:"prog"`
 	OK   bool            `json:"ok"`
+	Vars json.RawMessage `json:"vars"`
 	Runs []refineRun     `json:"runs"`
 }
 
@@ -80,12 +81,14 @@ func runRefine(c *Check) {
 		c.count("refine|"+src, len(rr.Runs) > 0)
 		programs++
 		for mi, opt := range []bool{false, true} {
-			m, err := newMachine(src, nil, fns, opt, newResetCtx())
+			vars, _ := rowVars(&Row{Vars: rr.Vars})
+			m, err := newMachine(src, vars, fns, opt, newResetCtx())
 			if err != nil {
 				c.disagree(&Disagreement{Kind: "prepare-failed", Script: src, Expected: "accepted", Got: err.Error(), Row: row.Raw})
 				return
 			}
 			tr := attachTracer(m)
+			m.countSteps(100000) // a run that never ends is cut off (the model's path is then a prefix of the real one)
 			for ri, r := range rr.Runs {
 				obj, ok := objFromPairs(r.Obj)
 				if !ok {
@@ -112,6 +115,7 @@ func runRefine(c *Check) {
 				}
 			}
 			detachTracer(m)
+			m.release()
 		}
 	})
 	c.extra["refinement_programs"] = programs
